@@ -9,5 +9,8 @@ import TeosVerif.Props.C05
 #print axioms Teos.C05.abandon_inv
 #print axioms Teos.C05.abandon_only_that_tower
 #print axioms Teos.C05.notify_records_all
+#print axioms Teos.C05.holdAfter_records_all
 #print axioms Teos.C05.all_due_recorded
 #print axioms Teos.C05.all_due_recorded_from_start
+#print axioms Teos.C05.tidy_run
+#print axioms Teos.C05.exactly_one_at_stable_points
